@@ -40,6 +40,7 @@ type c18Env struct {
 	la, lb  *ProxyInst // loop pair: la -> lb -> la
 	laa     *ProxyInst // self loop
 	anon, odd *ProxyInst // instances named "" and "my proxy/1.0 (x)"
+	cxp     *ProxyInst // like cx, but the upstream proxy is chosen by a PAC script
 	cx, cxh *ProxyInst // behind an upstream HTTP proxy that records the CONNECTs it gets; cxh also has a --connect-header rule
 	own     map[*ProxyInst]string
 	noVia   map[*ProxyInst]bool // instances that were seen forwarding a request without adding their element
@@ -122,10 +123,11 @@ func getEnv18() (*c18Env, error) {
 		e.odd = mk(ProxyOpts{Name: "edge-7.example"})
 		e.cx = mk(ProxyOpts{Upstream: "http://" + base.upstream.Addr})
 		e.cxh = mk(ProxyOpts{Upstream: "http://" + base.upstream.Addr, ConnectHeaders: []string{"X-C18-Connect: yes"}})
+		e.cxp = mk(ProxyOpts{PAC: `function FindProxyForURL(url, host) { return "PROXY ` + base.upstream.Addr + `"; }`})
 		if env18Err != nil {
 			return
 		}
-		for _, p := range []*ProxyInst{e.a, e.b, e.cx, e.cxh, e.anon, e.odd} {
+		for _, p := range []*ProxyInst{e.a, e.b, e.cx, e.cxh, e.cxp, e.anon, e.odd} {
 			v, err := learnOwnVia(base, p, base.origin.Addr, false)
 			if err != nil && strings.Contains(err.Error(), "no Via at origin") {
 				// not a harness problem: this instance forwards without adding its element (reported by every case that uses it)
@@ -159,7 +161,7 @@ var c18Others = []string{"1.1 other", "1.0 fred", "1.1 p.example.net:8080", "1.1
 	"1.1 c5 (no such host)", "1.1 c6 (malformed HTTP response)"}
 
 func genC18(t *rapid.T) C18Case {
-	c := C18Case{Mode: rapid.SampledFrom([]string{"chain", "chain", "chain", "chain-mitm", "loop-aa", "loop-aba", "chain-connect", "chain-connect-hdr", "chain-anon", "chain-named"}).Draw(t, "mode")}
+	c := C18Case{Mode: rapid.SampledFrom([]string{"chain", "chain", "chain", "chain-mitm", "loop-aa", "loop-aba", "chain-connect", "chain-connect-hdr", "chain-connect-pac", "chain-connect-direct", "chain-anon", "chain-named"}).Draw(t, "mode")}
 	n := rapid.IntRange(0, 5).Draw(t, "nelems")
 	for i := 0; i < n; i++ {
 		c.Elems = append(c.Elems, rapid.SampledFrom(c18Others).Draw(t, "elem"))
@@ -274,6 +276,10 @@ func runC18(c C18Case) (fails []vstat.Failure) {
 		px = e.cx
 	case "chain-connect-hdr":
 		px = e.cxh
+	case "chain-connect-pac":
+		px = e.cxp
+	case "chain-connect-direct":
+		px = e.a // no upstream at all: the CONNECT is answered by this instance, for or against
 	case "loop-aa":
 		px = e.laa
 	case "loop-aba":
@@ -343,7 +349,7 @@ func runC18(c C18Case) (fails []vstat.Failure) {
 	if c.HTTP10 {
 		proto, ver = "HTTP/1.0", "1.0"
 	}
-	if strings.HasPrefix(c.Mode, "chain-connect") && c.Crowd > 0 {
+	if strings.HasPrefix(c.Mode, "chain-connect") && c.Mode != "chain-connect-direct" && c.Crowd > 0 {
 		if fails = c18Crowd(base, px, own, id, c.Crowd, key); len(fails) > 0 {
 			return fails
 		}
@@ -364,6 +370,16 @@ func runC18(c C18Case) (fails []vstat.Failure) {
 		m, err := ReadResponse(bufio.NewReader(conn), "CONNECT")
 		if err != nil {
 			return []vstat.Failure{vstat.Failf(key("no-response"), "no response to CONNECT: %v", err)}
+		}
+		if c.Mode == "chain-connect-direct" {
+			// nobody upstream to look at: a chain that holds the instance's element is refused, any other gets its tunnel
+			switch {
+			case hasOwn && m.Status != 400:
+				fails = append(fails, vstat.Failf(key("own-not-refused"), "CONNECT (no upstream configured) whose Via lines %q contain the instance's own element %q: the proxy answered %d", lines, own, m.Status))
+			case !hasOwn && m.Status != 200:
+				fails = append(fails, vstat.Failf(key("others-refused"), "CONNECT (no upstream configured) whose Via lines %q contain only other hops' elements: the proxy answered %d", lines, m.Status))
+			}
+			return fails
 		}
 		var rec *Msg
 		for _, r := range up.RequestsSince(since) {
